@@ -2,7 +2,7 @@
 use super::{op_line, Gen};
 use crate::wire::data_of;
 
-pub const OPS: [&str; 54] = [
+pub const OPS: [&str; 56] = [
     "lcc lat_1=57 lon_0=12",
     "lcc lat_1=-33 lat_2=-45 lon_0=10",
     "omerc latc=55 lonc=12 alpha=30 gamma_c=30 k_0=0.9996",
@@ -57,6 +57,8 @@ pub const OPS: [&str; 54] = [
     "gridshift grids=5458_with_subgrid.gsb,test.datum inv",
     "push v_1 v_2 | addone | pop v_2 v_1 v_3",
     "push v_3 | pop v_3 v_4",
+    "deformation t_epoch=2000 grids=test.deformation",
+    "deformation t_epoch=2010.5 grids=test.deformation,@null inv",
 ];
 
 /// a second deformation grid overlapping `test.deformation` (54-58 N, 8-16 E) in 56-58 N, 12-16 E, with
